@@ -54,6 +54,8 @@ fn c01(seed: u64, case: u64, out: &Out) {
     let prio_mix = rng.below(3);
     let body = *rng.pick(&[Body::Instant, Body::Instant, Body::Suspend, Body::Delay1ms, Body::Busy]);
     let max_size = *rng.pick(&[1usize, 4, 256]);
+    // a delayed task is only resumed at the next 10 ms slice of the loop: keep delay workloads small enough to finish within the budget
+    let per = if matches!(body, Body::Delay1ms) { per.min(3000 / submitters).max(50) } else { per };
     let total = submitters * per;
     out.begin(case, jobj! {"event_loops" => loops, "submitter_threads" => submitters, "tasks_per_submitter" => per, "priority_mix" => ["constant", "5 levels", "random i64 incl. MIN/MAX"][prio_mix as usize],
         "task_body" => format!("{body:?}"), "pool_max_size" => max_size});
@@ -178,8 +180,13 @@ fn c01(seed: u64, case: u64, out: &Out) {
         if counts.iter().all(|c| c.load(Ordering::SeqCst) == 1) {
             break;
         }
-        if last_progress.elapsed() > Duration::from_secs(3) || Instant::now() > deadline {
+        if last_progress.elapsed() > Duration::from_secs(3) {
             break;
+        }
+        if Instant::now() > deadline {
+            // still making progress, just not done within the budget: no verdict
+            out.end(case, Verdict::Inconclusive, "harness/workload-not-finished-within-budget", false, "", jobj! {"executed" => e, "submitted" => total}, "tasks were still being executed when the 90 s budget ran out");
+            std::process::exit(0);
         }
         // heartbeat
         let pr = probe_runs.clone();
@@ -221,12 +228,13 @@ fn c02(seed: u64, case: u64, out: &Out) {
     let loops = *rng.pick(&[1usize, 2, 4]);
     let joiners = *rng.pick(&[1usize, 2, 4, 16]);
     let forced = case % 3 == 0;
-    let per = if forced { rng.usize(6, 16) } else { rng.usize(20, 120) }; // force "completion lands between first check and registration" through the pause hook
+    let per = if forced { rng.usize(6, 16) } else if loops > 1 { rng.usize(10, 60) } else { rng.usize(20, 120) }; // force "completion lands between first check and registration" through the pause hook
     out.begin(case, jobj! {"event_loops" => loops, "joiner_threads" => joiners, "tasks_per_joiner" => per, "forced_schedule" => if forced {"waiter paused after its first result check until the task finished + 20 ms"} else {"none"}});
     init(loops, 256, 0, 0);
     static FINISHED: Mutex<Option<std::collections::HashMap<u64, u64>>> = Mutex::new(None);
     *FINISHED.lock().unwrap() = Some(std::collections::HashMap::new());
     static PAUSE_HITS: AtomicUsize = AtomicUsize::new(0);
+    static FIN_UIDS: Mutex<Vec<usize>> = Mutex::new(Vec::new());
     if forced {
         fn pauser(point: &'static str, task_id: u64) {
             if point != "join:after_first_check" {
@@ -290,6 +298,7 @@ fn c02(seed: u64, case: u64, out: &Out) {
                         if let Some(m) = FINISHED.lock().unwrap().as_mut() {
                             m.insert(id, mono_ns());
                         }
+                        FIN_UIDS.lock().unwrap().push(uid);
                         match kind {
                             3 => panic!("static message of a c02 task"),
                             4 => panic!("formatted message of task {uid}"),
@@ -333,10 +342,17 @@ fn c02(seed: u64, case: u64, out: &Out) {
     let mut viol: Option<(String, String)> = None;
     let mut worst = 0u64;
     let mut early = 0usize;
+    let mut unfinished = 0usize;
+    let finished_ids: std::collections::HashSet<usize> = FIN_UIDS.lock().unwrap().iter().copied().collect();
     for (uid, want, got, lat, before) in &rs {
         worst = worst.max(*lat);
         if *before {
             early += 1;
+        }
+        if got.starts_with("JoinError(TimedOut") && *lat == 0 && !finished_ids.contains(uid) {
+            // the task itself never finished (lost or still queued): a timeout is the legal answer here, C01 owns that
+            unfinished += 1;
+            continue;
         }
         if got != want {
             let kind = if got.starts_with("JoinError(TimedOut") { "join-timed-out-although-task-finished" } else if got.starts_with("JoinError") { "join-failed" } else { "join-returned-another-outcome" };
@@ -347,7 +363,7 @@ fn c02(seed: u64, case: u64, out: &Out) {
         }
     }
     let hits = PAUSE_HITS.load(Ordering::SeqCst);
-    let obs = jobj! {"joins" => rs.len(), "joins_issued_before_task_finished" => early, "worst_latency_after_finish_ms" => worst / 1_000_000, "pause_hook_hits" => hits, "wall_ms" => t0.elapsed().as_millis() as u64};
+    let obs = jobj! {"joins" => rs.len(), "joins_issued_before_task_finished" => early, "worst_latency_after_finish_ms" => worst / 1_000_000, "pause_hook_hits" => hits, "joins_on_tasks_that_never_finished(not judged)" => unfinished, "wall_ms" => t0.elapsed().as_millis() as u64};
     let fp = format!("{loops}|{joiners}|{per}|{forced}");
     match viol {
         Some((k, d)) => out.end(case, Verdict::Violated, &format!("C02/{k}"), true, &fp, obs, &d),
